@@ -530,7 +530,7 @@ def finalize(steps, V):
         return r[1] if isinstance(r, list) else r
 
     for op in ("cmp_size", "cmp_structural", "cmp_cardinality", "cmp_cardinality_strict", "cmp_implies"):
-        tab = {(a, b): unw(_cmp.get((op, a, b))) for a in pool for b in pool if (op, a, b) in _cmp}
+        tab = {(a, b): unw(r) for (o, a, b), r in _cmp.items() if o == op}
         if not tab:
             continue
         total = op in ("cmp_size", "cmp_structural", "cmp_cardinality")
@@ -554,19 +554,18 @@ def finalize(steps, V):
                     report("cmp_cardinality_strict must return None exactly for different variable counts", {"a": a, "b": b, "observed": r})
         le = lambda r: r in ("LT", "EQ")
         ntr = 0
-        for a in pool:
-            for b in pool:
-                rab = tab.get((a, b))
-                if not le(rab):
-                    continue
-                for c in pool:
-                    rbc = tab.get((b, c))
-                    if not le(rbc):
-                        continue
-                    if (a, c) not in tab:
-                        continue          # the pair was not part of this run (only complete triples are judged)
-                    rac = tab.get((a, c))
-                    ntr += 1
-                    if not le(rac) or (rac == "EQ") != (rab == "EQ" and rbc == "EQ"):
-                        report(op + " is not transitive", {"a": a, "b": b, "c": c, "ab": rab, "bc": rbc, "ac": rac})
+        below = {}            # b -> [(c, r(b,c))] for every judged pair with b <= c
+        for (b, c), r in tab.items():
+            if le(r):
+                below.setdefault(b, []).append((c, r))
+        for (a, b), rab in sorted(tab.items()):
+            if not le(rab):
+                continue
+            for c, rbc in below.get(b, ()):
+                if (a, c) not in tab:
+                    continue          # the pair was not part of this run (only complete triples are judged)
+                rac = tab[(a, c)]
+                ntr += 1
+                if not le(rac) or (rac == "EQ") != (rab == "EQ" and rbc == "EQ"):
+                    report(op + " is not transitive", {"a": a, "b": b, "c": c, "ab": rab, "bc": rbc, "ac": rac})
         V.count("triples_checked:" + op, ntr)
